@@ -37,6 +37,9 @@ type VerifPlan struct {
 	ForceSuite13 uint16
 	// ForceGroup makes the TLS 1.3 server select this group (HRR if no share).
 	ForceGroup CurveID
+	// ForceCurve12 makes the TLS <= 1.2 server really run ECDHE on this curve,
+	// whatever the client's supported_groups says.
+	ForceCurve12 CurveID
 	// ClearCookie makes the server forget the cookie echoed in the second
 	// ClientHello before it compares the two hellos (the stock server never sends
 	// a cookie; the harness adds one through RewriteOut).
@@ -229,6 +232,25 @@ func VerifWriteRecord(c *Conn, typ uint8, data []byte) error {
 	defer c.out.Unlock()
 	_, err := c.writeRecordLocked(recordType(typ), data)
 	return err
+}
+
+// verifKA is embedded in ecdheKeyAgreement: the curve a plan forces on the TLS <= 1.2
+// server key exchange.
+type verifKA struct{ force CurveID }
+
+func (c *Conn) verifKeyAgreement(ka keyAgreement) {
+	if p := c.verif.plan; p != nil && p.ForceCurve12 != 0 {
+		if e, ok := ka.(*ecdheKeyAgreement); ok {
+			e.verifKA.force = p.ForceCurve12
+		}
+	}
+}
+
+func (ka *ecdheKeyAgreement) verifCurve(g CurveID) CurveID {
+	if ka.verifKA.force != 0 {
+		return ka.verifKA.force
+	}
+	return g
 }
 
 // VerifReadHandshake reads the next handshake message from the connection under its
